@@ -45,6 +45,15 @@ func checkC15(c *Ctx, r *Report) {
 	c15Step(c, r, rr, step)
 	c15Loop(c, r, rr, step)
 	c15Conn(c, r, c.fnMust("server", "*connection.handle"))
+	// R15.8: a request the parser refuses is still answered: the assembler's unchecked type
+	// assertions on the classifier's / dispatcher's errors cannot fail (C16 R16.1); a panic there
+	// drops the reply and everything buffered behind it
+	{
+		tmp := newReport(r.Prop, r.Tier)
+		c16Assembler(c, tmp)
+		r.instance("R15.8", copyItems(tmp, r, "R16.1", "R15.8"))
+		r.floor("R15.8", 2)
+	}
 	r.assumption("bytes.Buffer contract: Bytes() is the unread portion, Next(n) returns and consumes min(n, Len()) bytes, Reset empties, Write appends")
 	r.assumption("one assembler per connection, used by one goroutine (server.go creates it per accepted connection)")
 }
